@@ -1,7 +1,7 @@
 /-
 Model of the update funnel of a frappy module.
 
-  `frappy/modulebase.py:507-553   Module.announceUpdate`          → `resolve`, `decide`, `commit`, `announce`
+  `frappy/modulebase.py:507-553   Module.announceUpdate`          → `resolve`, `emits`, `commit`, `announce`
   `frappy/modulebase.py:125-141   read wrapper  (new_rfunc)`      → `readEv`
   `frappy/modulebase.py:175-194   write wrapper (new_wfunc)`      → `writeEv`
   `frappy/params.py:238-242       Parameter.__set__`              → `assignEv`
@@ -83,7 +83,7 @@ def storeValue {V E : Type} (e : Entry V E) : VE V E → Entry V E
 
 /-- lines 535-537 and 541-543, evaluated on the entry as it was when the lock was taken:
 `true` = go on to stamp and notify, `false` = `return` without a message -/
-def decide {V E : Type} [DecidableEq E] (o : Oracle V E) (e : Entry V E) (now : Int) : VE V E → Bool
+def emits {V E : Type} [DecidableEq E] (o : Oracle V E) (e : Entry V E) (now : Int) : VE V E → Bool
   | .err x => !(e.readerror == some x)
   | .val v => changed o e v || !(now < e.timestamp + e.window)
 
@@ -109,7 +109,7 @@ structure Out (V E : Type) where
 
 /-- `announceUpdate` for an already resolved value-or-error (body of the `with self.updateLock`) -/
 def announceR {V E : Type} [DecidableEq E] (o : Oracle V E) (e : Entry V E) (now : Int) (r : VE V E) : Out V E :=
-  if decide o e now r then
+  if emits o e now r then
     let e' := commit (storeValue e r) now r
     ⟨e', some (mkMsg e')⟩
   else ⟨storeValue e r, none⟩
